@@ -21,6 +21,7 @@ mod regions;
 mod sched;
 mod copyw;
 mod amap;
+mod own;
 
 use std::io::{BufRead, BufWriter, Write};
 
@@ -46,6 +47,7 @@ fn main() {
         "sched" => Box::new(sched::SchedExec::default()),
         "copyw" => Box::new(copyw::CopyExec::default()),
         "amap" => Box::new(amap::AmapExec::default()),
+        "own" => Box::new(own::OwnExec::default()),
         _ => {
             eprintln!("unknown module {module}");
             std::process::exit(2);
